@@ -244,6 +244,131 @@ type EditCase struct {
 	// the earlier calls are compared with copies taken when they were returned:
 	// a returned script belongs to the caller.
 	Then *EditCase `json:"then,omitempty"`
+	// Poison: a call that panics inside the element comparison and is recovered
+	// by the caller, made immediately before (or, After, behind) the calls of
+	// this case, see Poison.
+	Poison *Poison `json:"poison,omitempty"`
+}
+
+// Poison describes a call of LCSFunc / LCS / EditScript / LISFunc / LNDSFunc
+// whose element comparison PANICS part of the way through, on inputs taken
+// from the case it belongs to (its two sequences as ints, at most poisonMaxLen
+// elements each).  The panic is the caller's own doing - a comparison function
+// that panics, or interface elements that hold slices on both sides, for
+// which Go's == panics - and no violation; the caller recovers it.  The
+// functions are pure, so whatever the aborted call left behind (a pooled
+// buffer handed back half-filled, a memo, a lock) must not matter: the
+// ordinary calls of the case, made next in the same goroutine, and those of the
+// following case must be right.
+type Poison struct {
+	// Fn: "lcsfunc" LCSFunc with an equality that panics when it is called for
+	// the (J mod (total+1))+1-th time, total = len(a)*len(b) (so sometimes never);
+	// "lis" / "lnds": LISFunc / LNDSFunc on the first sequence with a comparison
+	// that panics likewise (total = 2*len); "editany" / "lcsany": EditScript /
+	// LCS on []any holding the ints, with a[P mod len(a)] and b[Q mod len(b)]
+	// replaced by slice values ([]int): comparing THOSE two panics with a
+	// run-time error, every other pair of elements compares as usual.
+	Fn      string `json:"fn"`
+	J, P, Q int    `json:",omitempty"`
+	// After: the poison call is made after the calls of the case instead of
+	// before them (the next case runs in its wake).
+	After bool `json:"after,omitempty"`
+}
+
+const poisonMaxLen = 300
+
+type poisonPanic struct{}
+
+// run makes the poison call on (a, b) and swallows ITS panic - the one raised
+// by the comparison - and nothing else: a different panic value in the modes
+// with a comparison function means that the function under test failed by
+// itself on valid arguments, before the comparison gave up.
+func (p *Poison) run(a, b []int) string {
+	a, b = a[:min(len(a), poisonMaxLen)], b[:min(len(b), poisonMaxLen)]
+	calls := 0
+	limit := func(total int) int { return (p.J%(total+1) + (total + 1)) % (total + 1) }
+	var pv any
+	var what string
+	switch p.Fn {
+	case "lcsfunc":
+		at := limit(len(a) * len(b))
+		what = fmt.Sprintf("LCSFunc(%s, %s, eq) with an eq that panics in its call #%d", brief(a), brief(b), at+1)
+		pv = vk.PanicValue(func() {
+			slice.LCSFunc(slices.Clone(a), slices.Clone(b), func(x, y int) bool {
+				if calls++; calls > at {
+					panic(poisonPanic{})
+				}
+				return x == y
+			})
+		})
+	case "lis", "lnds":
+		at := limit(2 * len(a))
+		what = fmt.Sprintf("%sFunc(%s, cmp) with a cmp that panics in its call #%d", map[bool]string{true: "LIS", false: "LNDS"}[p.Fn == "lis"], brief(a), at+1)
+		cf := func(x, y int) int {
+			if calls++; calls > at {
+				panic(poisonPanic{})
+			}
+			return cmp.Compare(x, y)
+		}
+		pv = vk.PanicValue(func() {
+			if p.Fn == "lis" {
+				slice.LISFunc(slices.Clone(a), cf)
+			} else {
+				slice.LNDSFunc(slices.Clone(a), cf)
+			}
+		})
+	case "editany", "lcsany":
+		if len(a) == 0 || len(b) == 0 {
+			return ""
+		}
+		xa, xb := make([]any, len(a)), make([]any, len(b))
+		for i, v := range a {
+			xa[i] = v
+		}
+		for i, v := range b {
+			xb[i] = v
+		}
+		xa[(p.P%len(a)+len(a))%len(a)] = []int{1}
+		xb[(p.Q%len(b)+len(b))%len(b)] = []int{1}
+		vk.PanicValue(func() { // a run-time error of ==: the caller's doing, whatever it says
+			if p.Fn == "editany" {
+				slice.EditScript(xa, xb)
+			} else {
+				slice.LCS(xa, xb)
+			}
+		})
+		return ""
+	default:
+		return fmt.Sprintf("VK-INFRA unknown poison fn %q", p.Fn)
+	}
+	if _, mine := pv.(poisonPanic); pv != nil && !mine {
+		return what + fmt.Sprintf(": panicked by itself, before the comparison did (after %d calls of it): %v", calls, pv)
+	}
+	return ""
+}
+
+// poisoned wraps the check of a case with its poison call; a and b are the
+// sequences of the case.
+func poisoned(p *Poison, a, b []int, check func() (info, string)) (info, string) {
+	if p == nil {
+		return check()
+	}
+	if !p.After {
+		if m := p.run(a, b); m != "" {
+			return info{}, m
+		}
+	}
+	in, m := check()
+	if m != "" {
+		if !p.After {
+			m = fmt.Sprintf("[directly after a %s call on similar inputs whose element comparison panicked and was recovered by the caller (poison %+v)] ", p.Fn, *p) + m
+		}
+		return in, m
+	}
+	if p.After {
+		m = p.run(a, b)
+	}
+	return in, m
 }
 
 // EditRound is one in-place update of the inputs of an EditCase.  Same copies
@@ -324,7 +449,7 @@ func spanOf[T any](k *ek[T], s, in, pristine []T, pos int) string {
 	if pos+len(s) > len(in) {
 		return fmt.Sprintf("span of length %d at offset %d runs past the end of the input (length %d)", len(s), pos, len(in))
 	}
-	if len(s) > 0 && &s[0] != &in[pos] {
+	if len(s) > 0 && !k.flat && &s[0] != &in[pos] {
 		return fmt.Sprintf("span %v does not share storage with the input at offset %d", k.brief(s), pos)
 	}
 	if !k.equal(s, pristine[pos:pos+len(s)]) {
@@ -339,6 +464,26 @@ func checkEdit(c EditCase) (info, string) { return checkEditObs(c, nil) }
 // checkEditObs: o (may be nil) receives the re-validation of the returned
 // scripts, see vk.Obs.Retain.
 func checkEditObs(c EditCase, o *vk.Obs) (info, string) {
+	if c.Poison == nil {
+		return checkEditKind(c, o)
+	}
+	a, b := c.Lhs, c.Rhs
+	if c.Buf != nil {
+		l0, l1 := window(c.LV, len(c.Buf))
+		r0, r1 := window(c.RV, len(c.Buf))
+		a, b = c.Buf[l0:l1], c.Buf[r0:r1]
+	}
+	if c.BigN > 0 {
+		a = make([]int, poisonMaxLen)
+		for i := range a {
+			a[i] = i
+		}
+		b = a[3:]
+	}
+	return poisoned(c.Poison, a, b, func() (info, string) { return checkEditKind(c, o) })
+}
+
+func checkEditKind(c EditCase, o *vk.Obs) (info, string) {
 	switch c.Elem {
 	case "", elem.Int:
 		return checkEditOf(c, intKit(), o)
@@ -356,6 +501,10 @@ func checkEditObs(c EditCase, o *vk.Obs) (info, string) {
 		return checkEditOf(c, anyKit(), o)
 	case elem.F64:
 		return checkEditOf(c, f64Kit(), o)
+	case kindUnit:
+		return checkEditOf(c, zeroKit[struct{}](kindUnit), o)
+	case kindZarr:
+		return checkEditOf(c, zeroKit[[0]int](kindZarr), o)
 	}
 	return info{}, badKind("EditScript", c.Elem)
 }
@@ -443,6 +592,27 @@ func checkEditOf[T comparable](c EditCase, k *ek[T], o *vk.Obs) (in info, msg st
 		if c.Swap {
 			c.Lhs, c.Rhs = c.Rhs, c.Lhs
 		}
+	}
+	if k.flat {
+		// one value: the sequences are their lengths (the case is shared data)
+		if c.BigN > 0 {
+			c.Lhs, c.Rhs = c.Lhs[:min(len(c.Lhs), 1200)], c.Rhs[:min(len(c.Rhs), 1200)]
+		}
+		c.Lhs, c.Rhs, c.LID, c.RID, c.BID = zeros(len(c.Lhs)), zeros(len(c.Rhs)), nil, nil, nil
+		if c.Buf != nil {
+			c.Buf = zeros(len(c.Buf))
+		}
+		rounds := make([]EditRound, len(c.Rounds))
+		for i, rd := range c.Rounds {
+			rounds[i] = EditRound{Same: rd.Same}
+			for _, w := range rd.L {
+				rounds[i].L = append(rounds[i].L, [3]int{w[0], 0, 0})
+			}
+			for _, w := range rd.R {
+				rounds[i].R = append(rounds[i].R, [3]int{w[0], 0, 0})
+			}
+		}
+		c.Rounds = rounds
 	}
 	if len(c.Rounds) > 0 {
 		// the rounds rewrite the model of the inputs; the case itself is data
@@ -876,6 +1046,9 @@ type SeqCase struct {
 	// NaN, whatever Vs holds there.
 	Neg []int `json:"neg,omitempty"`
 	NaN []int `json:"nan,omitempty"`
+	// Poison: see EditCase (the sequences of the poison call are the first
+	// elements of the input, twice).
+	Poison *Poison `json:"poison,omitempty"`
 }
 
 // widen maps the values linearly onto the range [klo, khi] (the whole int
@@ -997,6 +1170,19 @@ func checkSeq(c SeqCase) (info, string) { return checkSeqObs(c, nil) }
 // checkSeqObs: o (may be nil) receives the re-validation of the returned
 // slices, see vk.Obs.Retain.
 func checkSeqObs(c SeqCase, o *vk.Obs) (info, string) {
+	if c.Poison == nil {
+		return checkSeqKind(c, o)
+	}
+	a := slices.Clip(c.Vs)
+	for _, sg := range c.Segs {
+		for i := 0; i < sg[2] && len(a) < poisonMaxLen; i++ {
+			a = append(a, sg[0]+i*sg[1])
+		}
+	}
+	return poisoned(c.Poison, a, a, func() (info, string) { return checkSeqKind(c, o) })
+}
+
+func checkSeqKind(c SeqCase, o *vk.Obs) (info, string) {
 	switch c.Elem {
 	case "", elem.Int:
 		return checkSeqOf(c, intKit(), natural[int], o)
@@ -1014,6 +1200,12 @@ func checkSeqObs(c SeqCase, o *vk.Obs) (info, string) {
 		return checkSeqOf(c, anyKit(), nil, o)
 	case elem.Bytes:
 		return checkSeqOf(c, bytesKit(), nil, o)
+	case kindUnit:
+		return checkSeqOf(c, zeroKit[struct{}](kindUnit), nil, o)
+	case kindZarr:
+		return checkSeqOf(c, zeroKit[[0]int](kindZarr), nil, o)
+	case kindZfn:
+		return checkSeqOf(c, zeroKit[[0]func()](kindZfn), nil, o)
 	}
 	return info{}, badKind("LIS/LNDS", c.Elem)
 }
@@ -1042,6 +1234,9 @@ func checkSeqOf[T any](c SeqCase, k *ek[T], nat func(vs []T, strict bool) []T, o
 				c.Vs = append(c.Vs, sg[0]+i*sg[1])
 			}
 		}
+	}
+	if k.flat {
+		c.Vs = zeros(len(c.Vs)) // one value: the input is its length
 	}
 	if c.Wide && c.Cmp != "diff" && c.Cmp != "half" { // a-b is not an ordering once differences overflow
 		c.Vs = widen(c.Vs, k.lo, k.hi)
@@ -1313,6 +1508,8 @@ type LCSCase struct {
 	AID   []int  `json:"aid,omitempty"`
 	BID   []int  `json:"bid,omitempty"`
 	Share bool   `json:"share,omitempty"`
+	// Poison: see EditCase.
+	Poison *Poison `json:"poison,omitempty"`
 }
 
 // window clamps w to a valid window of a slice of length n.
@@ -1403,6 +1600,20 @@ func checkLCSTol(c LCSCase) (in info, msg string) {
 // checkLCSObs: o (may be nil) receives the re-validation of the returned
 // slice, see vk.Obs.Retain.
 func checkLCSObs(c LCSCase, o *vk.Obs) (info, string) {
+	if c.Poison == nil {
+		return checkLCSKind(c, o)
+	}
+	a, b := c.As, c.Bs
+	switch c.Lay {
+	case 4:
+		b = a
+	case 5:
+		a = b
+	}
+	return poisoned(c.Poison, a, b, func() (info, string) { return checkLCSKind(c, o) })
+}
+
+func checkLCSKind(c LCSCase, o *vk.Obs) (info, string) {
 	if c.Tol {
 		return checkLCSTol(c)
 	}
@@ -1425,6 +1636,12 @@ func checkLCSObs(c LCSCase, o *vk.Obs) (info, string) {
 		return checkLCSOf(c, f64Kit(), plainLCS[float64], o)
 	case elem.Bytes:
 		return checkLCSOf(c, bytesKit(), nil, o)
+	case kindUnit:
+		return checkLCSOf(c, zeroKit[struct{}](kindUnit), plainLCS[struct{}], o)
+	case kindZarr:
+		return checkLCSOf(c, zeroKit[[0]int](kindZarr), plainLCS[[0]int], o)
+	case kindZfn:
+		return checkLCSOf(c, zeroKit[[0]func()](kindZfn), nil, o)
 	}
 	return info{}, badKind("LCS/LCSFunc", c.Elem)
 }
@@ -1453,6 +1670,9 @@ func checkLCSOf[T any](c LCSCase, k *ek[T], plain func(as, bs []T) []T, o *vk.Ob
 	}
 	if !c.Fold && plain == nil {
 		return in, badKind("LCS", c.Elem)
+	}
+	if k.flat {
+		c.As, c.Bs, c.AID, c.BID = zeros(len(c.As)), zeros(len(c.Bs)), nil, nil // one value: lengths only
 	}
 	if m := k.allFit(c.As, c.Bs); m != "" {
 		return in, m
@@ -1620,6 +1840,9 @@ type UtilCase struct {
 	// different identities, with f64 the zeros -0.0 (where Keep keeps) and +0.0
 	// (where it drops), which are == although the predicate tells them apart.
 	// The predicate stays a function of the element.
+	// The zero-size kinds unit, zarr, zfn (kinds.go) are checked by lengths only
+	// (checkUtilZero); for them N is not cut to maxUtilN: it may be anything up
+	// to math.MaxInt, the slice takes no memory.
 	Elem string `json:"elem,omitempty"`
 	Dup  []int  `json:"dup,omitempty"`
 	// Mega (Rotate with int elements only) lifts the bound on N from maxUtilN
@@ -1654,6 +1877,7 @@ var c17Names = append([]string{
 	"partition_needs_swaps", "uneven_pieces", "batches_larger_first", "batches_larger_last", "negative_index_valid",
 	"n>=50", "partition_equal_looking_elements", "preceded_by_a_call_on_another_slice",
 	"rotate_len>=2^20", "rotate_len>2^21", "rotate_len>2^21_preceded_by_rotate_of_len-2^21_or_len-2^22",
+	"zero_size_elements_len>=2^62", "zero_size_elements_len>=MaxInt-64",
 }, elemClassNames...)
 
 const (
@@ -1682,6 +1906,8 @@ const (
 	c17Mega20
 	c17Mega21
 	c17MegaPair
+	c17Huge
+	c17HugeTop
 	c17Elem // first of the elem=<kind> classes
 )
 
@@ -1756,6 +1982,12 @@ func checkUtil1(c UtilCase, o *vk.Obs) (info, string) {
 			break // its row elements do not fit a byte
 		}
 		return checkUtilOf(c, b8Kit(), o)
+	case kindUnit:
+		return checkUtilZero[struct{}](c, o)
+	case kindZarr:
+		return checkUtilZero[[0]int](c, o)
+	case kindZfn:
+		return checkUtilZero[[0]func()](c, o)
 	}
 	return info{}, badKind(c.Fn, c.Elem)
 }
@@ -2346,6 +2578,322 @@ func checkUtilOf[T any](c UtilCase, k *ek[T], o *vk.Obs) (in info, msg string) {
 		return in, fmt.Sprintf("VK-INFRA unknown fn %q", c.Fn)
 	}
 	return in, ""
+}
+
+// chunksLenPlusNOverflow: whether the zero-size cases may ask Chunks for
+// len(vs)+n-1 > math.MaxInt with 0 < n < len(vs).  The pinned tree computed
+// the number of chunks as (len(vs)+n-1)/n and the end of a chunk as i+n; both
+// overflowed there, and Chunks panicked (makeslice: cap out of range / slice
+// bounds out of range) although n >= 0 - e.g. Chunks(make([]struct{},
+// math.MaxInt), 1<<62).  That was defect F9 of the pinned tree, repaired by
+// /repo commit 35bd10c (KNOWN_FINDINGS.txt), so the region is exercised.
+const chunksLenPlusNOverflow = true
+
+// zeroMaxPieces bounds the number of pieces a zero-size case may ask for (the
+// outer slice is real memory).
+const zeroMaxPieces = 4096
+
+// checkUtilZero is checkUtilOf for an element type of size zero (Elem unit,
+// zarr, zfn).  Such a type has one value, so nothing can be said about WHICH
+// elements a function returns - but everything about HOW MANY: lengths,
+// capacities, the number of pieces, panics.  The slice takes no memory, so N
+// may be anything up to math.MaxInt (for the functions that do not walk over
+// the elements: Chunks, Batches, Head, Tail, At, PtrAt; for Partition and
+// Rotate N is cut to 4096): the index arithmetic of a function must hold up to
+// the end of the int range, which only a zero-size slice can reach.  Only
+// lengths are looked at, never the elements.  Partition: the predicate is a
+// function of the element, so it keeps everything (Keep[0] != 0) or nothing.
+func checkUtilZero[T any](c UtilCase, o *vk.Obs) (in info, msg string) {
+	n, spare, kk := max(c.N, 0), min(max(c.Spare, 0), 64), c.K
+	switch c.Fn {
+	case "Partition", "Rotate":
+		n = min(n, 4096)
+	case "Chunks":
+		if kk > 0 && kk < n {
+			if !chunksLenPlusNOverflow && n > math.MaxInt-kk+1 {
+				n = math.MaxInt - kk + 1
+			}
+			if n/kk > zeroMaxPieces {
+				n = kk*zeroMaxPieces + n%kk
+			}
+		}
+	case "Batches":
+		if min(kk, n) > zeroMaxPieces {
+			n = zeroMaxPieces
+		}
+	}
+	spare = min(spare, math.MaxInt-n)
+	vs := make([]T, n, n+spare)
+	tag := tagOf(c.Elem)
+	call := c.Fn + tag
+	errf := func(format string, args ...any) string {
+		return call + " [the element type has size zero: only lengths are checked]: " + fmt.Sprintf(format, args...)
+	}
+	in.set(c17Elem + elemClass(c.Elem))
+	in.setIf(n == 0 && c.Fn != "Stripe", c17Empty)
+	in.setIf(spare > 0 && c.Fn != "Stripe", c17Spare)
+	in.setIf(n >= 50, c17Big)
+	in.setIf(n >= 1<<62 && c.Fn != "Stripe", c17Huge)
+	in.setIf(n >= math.MaxInt-64 && c.Fn != "Stripe", c17HugeTop)
+	unchanged := func() string {
+		if len(vs) != n || cap(vs) != n+spare {
+			return errf("the caller's slice header changed?! len %d cap %d", len(vs), cap(vs))
+		}
+		return ""
+	}
+	// pieceLens checks that the pieces are capacity-clipped (all but the last)
+	// and that their lengths sum to n; it returns the extreme lengths.
+	pieceLens := func(out [][]T) (minLen, maxLen int, m string) {
+		off := 0
+		minLen, maxLen = math.MaxInt, 0
+		for idx, p := range out {
+			if len(p) > n-off {
+				return 0, 0, errf("piece #%d of length %d at offset %d runs past the end of the input; pieces have lengths %v", idx, len(p), off, lens(out))
+			}
+			if idx < len(out)-1 && cap(p) != len(p) {
+				return 0, 0, errf("piece #%d (length %d) has capacity %d: it is followed by another piece, so appending to it would overwrite the input", idx, len(p), cap(p))
+			}
+			minLen, maxLen = min(minLen, len(p)), max(maxLen, len(p))
+			off += len(p)
+		}
+		if off != n {
+			return 0, 0, errf("the pieces cover %d of %d elements; pieces have lengths %v", off, n, lens(out))
+		}
+		return minLen, maxLen, ""
+	}
+
+	switch c.Fn {
+	case "Partition":
+		in.set(c17FnPartition)
+		keepAll := len(c.Keep) > 0 && c.Keep[0] != 0
+		call = fmt.Sprintf("Partition%s(%d elements, keep = func(T) bool { return %v }, spare capacity %d)", tag, n, keepAll, spare)
+		var got []T
+		if pv := vk.PanicValue(func() { got = slice.Partition(vs, func(T) bool { return keepAll }) }); pv != nil {
+			return in, errf("panicked: %v", pv)
+		}
+		m := 0
+		if keepAll {
+			m = n
+		}
+		if len(got) != m {
+			return in, errf("result has length %d, want the %d kept elements", len(got), m)
+		}
+		if n > 0 && cap(got) != m {
+			return in, errf("result has length %d but capacity %d: not clipped", m, cap(got))
+		}
+		in.nt = true
+		in.set(c17Boundary)
+
+	case "Rotate":
+		in.set(c17FnRotate)
+		call = fmt.Sprintf("Rotate%s(len %d, k=%d, spare capacity %d)", tag, n, kk, spare)
+		allowed := kk >= -n && kk <= n
+		pv := vk.PanicValue(func() { slice.Rotate(vs, kk) })
+		if allowed && pv != nil {
+			return in, errf("panicked for -len <= k <= len: %v", pv)
+		}
+		if !allowed {
+			in.set(c17Panic)
+			if pv == nil {
+				return in, errf("k is out of range [-len, len] but Rotate did not panic")
+			}
+		}
+		b := near(kk, -n-1, -n, -n+1, -1, 0, 1, n-1, n, n+1)
+		in.setIf(b, c17Boundary)
+		in.nt = b || n == 0
+
+	case "Chunks":
+		in.set(c17FnChunks)
+		call = fmt.Sprintf("Chunks%s(len %d, n=%d, spare capacity %d)", tag, n, kk, spare)
+		var out [][]T
+		pv := vk.PanicValue(func() { out = slice.Chunks(vs, kk) })
+		if kk < 0 {
+			in.set(c17Panic)
+			if pv == nil {
+				return in, errf("n < 0 but Chunks did not panic (returned pieces of lengths %v)", lens(out))
+			}
+		} else {
+			if pv != nil {
+				return in, errf("panicked for n >= 0: %v", pv)
+			}
+			if _, _, m := pieceLens(out); m != "" {
+				return in, m
+			}
+			if kk == 0 {
+				if len(out) != 1 {
+					return in, errf("n == 0 must give a single chunk with the entire input, got %d chunks of lengths %v", len(out), lens(out))
+				}
+			} else {
+				for idx, p := range out {
+					if idx < len(out)-1 && len(p) != kk {
+						return in, errf("chunk #%d has length %d, every chunk but the last must have length %d; lengths %v", idx, len(p), kk, lens(out))
+					}
+					if len(p) > kk {
+						return in, errf("chunk #%d has length %d > n; lengths %v", idx, len(p), lens(out))
+					}
+					if len(p) == 0 && n > 0 {
+						return in, errf("chunk #%d is empty; lengths %v", idx, lens(out))
+					}
+				}
+			}
+			retainPieces(o, call, out)
+			in.setIf(kk > 0 && n%kk != 0 && n > kk, c17Uneven)
+		}
+		b := near(kk, -1, 0, 1, n-1, n, n+1)
+		in.setIf(b, c17Boundary)
+		in.nt = b || n == 0 || n >= 1<<62
+
+	case "Batches":
+		in.set(c17FnBatches)
+		call = fmt.Sprintf("Batches%s(len %d, n=%d, spare capacity %d)", tag, n, kk, spare)
+		var out [][]T
+		pv := vk.PanicValue(func() { out = slice.Batches(vs, kk) })
+		if kk < 0 {
+			in.set(c17Panic)
+			if pv == nil {
+				return in, errf("n < 0 but Batches did not panic (returned pieces of lengths %v)", lens(out))
+			}
+		} else {
+			if pv != nil {
+				return in, errf("panicked for n >= 0: %v", pv)
+			}
+			want := min(kk, n)
+			if len(out) != want {
+				return in, errf("got %d batches of lengths %v, want exactly min(n, len) = %d", len(out), lens(out), want)
+			}
+			if want > 0 {
+				lo, hi, m := pieceLens(out)
+				if m != "" {
+					return in, m
+				}
+				if hi-lo > 1 {
+					return in, errf("batch lengths %v differ by more than one", lens(out))
+				}
+				if last := out[len(out)-1]; cap(last) != len(last) {
+					return in, errf("the last batch (length %d) has capacity %d: not clipped, appending to it would write into the input's spare capacity", len(last), cap(last))
+				}
+				if hi != lo {
+					in.set(c17Uneven)
+					first, last := len(out[0]) == hi, len(out[len(out)-1]) == hi
+					sortedDesc := slices.IsSortedFunc(out, func(a, b []T) int { return cmp.Compare(len(b), len(a)) })
+					in.setIf(first && sortedDesc, c17LargerFirst)
+					in.setIf(last && !first, c17LargerLast)
+					if batchesLargerFirst && !sortedDesc {
+						return in, errf("batch lengths %v: the larger batches must come first", lens(out))
+					}
+				}
+			}
+			retainPieces(o, call, out)
+		}
+		b := near(kk, -1, 0, 1, n-1, n, n+1)
+		in.setIf(b, c17Boundary)
+		in.nt = b || n == 0 || n >= 1<<62
+
+	case "Head", "Tail":
+		head := c.Fn == "Head"
+		in.setIf(head, c17FnHead)
+		in.setIf(!head, c17FnTail)
+		if kk < 0 {
+			if kk = -kk; kk < 0 {
+				kk = math.MaxInt
+			}
+		}
+		call = fmt.Sprintf("%s%s(len %d, n=%d, spare capacity %d)", c.Fn, tag, n, kk, spare)
+		var got []T
+		pv := vk.PanicValue(func() {
+			if head {
+				got = slice.Head(vs, kk)
+			} else {
+				got = slice.Tail(vs, kk)
+			}
+		})
+		if pv != nil {
+			return in, errf("panicked: %v", pv)
+		}
+		if m := min(kk, n); len(got) != m {
+			return in, errf("result has length %d, want min(n, len) = %d", len(got), m)
+		}
+		b := near(kk, 0, 1, n-1, n, n+1)
+		in.setIf(b, c17Boundary)
+		in.nt = b || n == 0 || n >= 1<<62
+
+	case "Stripe":
+		in.set(c17FnStripe)
+		if kk < 0 {
+			if kk = -kk; kk < 0 {
+				kk = math.MaxInt
+			}
+		}
+		rows := make([][]T, len(c.Rows))
+		var lensR []int
+		maxLen, have := 0, 0
+		for r, l := range c.Rows {
+			l = min(max(l, 0), 1000)
+			lensR = append(lensR, l)
+			rows[r] = make([]T, l)
+			maxLen = max(maxLen, l)
+			if kk < l {
+				have++
+			}
+		}
+		call = fmt.Sprintf("Stripe%s(rows of lengths %v, i=%d)", tag, lensR, kk)
+		var got []T
+		if pv := vk.PanicValue(func() { got = slice.Stripe(rows, kk) }); pv != nil {
+			return in, errf("panicked: %v", pv)
+		}
+		if len(got) != have {
+			return in, errf("result has %d elements, %d of the rows have an element at column %d", len(got), have, kk)
+		}
+		for r := range rows {
+			if len(rows[r]) != lensR[r] {
+				return in, errf("row %d has length %d now", r, len(rows[r]))
+			}
+		}
+		ragged := have > 0 && have < len(rows)
+		b := len(rows) == 0 || kk >= maxLen-1
+		in.setIf(b, c17Boundary)
+		in.setIf(ragged, c17Uneven)
+		in.setIf(len(rows) == 0, c17Empty)
+		in.nt = b || ragged
+
+	case "At", "PtrAt":
+		at := c.Fn == "At"
+		in.setIf(at, c17FnAt)
+		in.setIf(!at, c17FnPtrAt)
+		call = fmt.Sprintf("%s%s(len %d, i=%d)", c.Fn, tag, n, kk)
+		valid := kk >= -n && kk < n
+		if at {
+			pv := vk.PanicValue(func() { slice.At(vs, kk) })
+			if valid && pv != nil {
+				return in, errf("panicked for an index in range: %v", pv)
+			}
+			if !valid {
+				in.set(c17Panic)
+				if pv == nil {
+					return in, errf("index out of range but At did not panic")
+				}
+			}
+		} else {
+			var p *T
+			if pv := vk.PanicValue(func() { p = slice.PtrAt(vs, kk) }); pv != nil {
+				return in, errf("panicked (PtrAt never panics): %v", pv)
+			}
+			if valid && p == nil {
+				return in, errf("returned nil for an index in range")
+			}
+			if !valid && p != nil {
+				return in, errf("index out of range but PtrAt returned a non-nil pointer")
+			}
+		}
+		in.setIf(valid && kk < 0, c17NegIdx)
+		b := near(kk, -n-1, -n, -1, 0, n-1, n)
+		in.setIf(b, c17Boundary)
+		in.nt = b || n == 0 || n >= 1<<62
+
+	default:
+		return in, fmt.Sprintf("VK-INFRA unknown fn %q", c.Fn)
+	}
+	return in, unchanged()
 }
 
 func lens[T any](out [][]T) []int {
